@@ -96,6 +96,72 @@ def run_case(client, cfg, strays, match, tick=TICK):
     return result, int(el * 1000)
 
 
+def run_flood(client, cfg, tick=TICK, pace=0.0003):
+    """No reply; well-formed non-matching datagrams keep arriving every ~0.3 ms from 0.6 T until 1.5 T - across the deadline, so that
+    the receive loop computes its remaining time again and again around the moment it reaches zero.  Returns (result, elapsed_ms)."""
+    from gufo.snmp import SnmpVersion
+    from vlib import rawdrv
+
+    class FloodAgent(threading.Thread):
+        def __init__(self):
+            super().__init__(daemon=True)
+            self.net = rawdrv.next_net()
+            self.sock, _, self.host, self.port = rawdrv.agent_socket(self.net)
+
+        def run(self):
+            r, _, _ = select.select([self.sock], [], [], 5.0)
+            if not r:
+                return
+            data, peer = self.sock.recvfrom(65535)
+            t0 = time.monotonic()
+            req = ag.Request(cfg, data)
+            a = ag.Agent(engine=cfg.engine or None) if cfg.engine else ag.Agent()
+            d = a.reply(cfg, req, [(bytes(n), ("int", 1)) for n in req.names], reqid=(req.reqid + 7) & 0x7FFFFFFF)
+            time.sleep(max(0.0, t0 + 0.6 * T * tick - time.monotonic()))
+            end = t0 + 1.5 * T * tick
+            while time.monotonic() < end:
+                try:
+                    self.sock.sendto(d, peer)
+                except OSError:
+                    return
+                time.sleep(pace)
+    agent = FloodAgent()
+    agent.start()
+    ver = {"v1": SnmpVersion.v1, "v2c": SnmpVersion.v2c, "v3": SnmpVersion.v3}[cfg.ver]
+    kw = dict(port=agent.port, community=cfg.community, version=ver, timeout=T * tick, tos=agent.net[2], send_buffer=agent.net[3], recv_buffer=agent.net[4])
+    if cfg.ver == "v3":
+        kw.update(engine_id=cfg.engine, user=apidrv.user_of(cfg))
+    if client == "sync":
+        from gufo.snmp.sync_client import SnmpSession
+        s = SnmpSession(agent.host, **kw)
+        t0 = time.monotonic()
+        try:
+            s.get("1.3.6.1.2.1.1.3.0")
+            result = "delivered"
+        except BaseException as e:  # noqa
+            result = type(e).__name__
+        el = time.monotonic() - t0
+    else:
+        from gufo.snmp.async_client import SnmpSession
+
+        async def go():
+            s = SnmpSession(agent.host, **kw)
+            t0 = time.monotonic()
+            try:
+                await s.get("1.3.6.1.2.1.1.3.0")
+                r = "delivered"
+            except BaseException as e:  # noqa
+                r = type(e).__name__
+            return r, time.monotonic() - t0
+        result, el = asyncio.run(go())
+    agent.join(3.0)
+    try:
+        agent.sock.close()
+    except OSError:
+        pass
+    return result, int(el * 1000)
+
+
 def run_pair(client, cfg, stray_at, second_reply_at):
     """Two requests on ONE session: the first sees a stray at tick `stray_at` and times out; the second is answered at
     tick `second_reply_at` (< T) and must be delivered - whatever the first call left behind."""
@@ -210,13 +276,23 @@ def run(tier):
             for k in slow:
                 if k in sch:
                     cases.append((client, cn, k, SLOW_TICK))
+    # stray floods across the deadline (no reply): TimeoutError at the timeout, nothing else
+    for cn in (["v2c", "v3-md5"] if not thorough else ["v2c", "v1", "v3-md5"]):
+        for client in ("sync", "async"):
+            for rep in range(3 if not thorough else 8):
+                cases.append((client, cn, ((2, 3, 4, 5, rep + 10), 0), -TICK))           # negative tick marks a flood case (strays are informational)
     results = {}
     lock = threading.Lock()
 
+    def one(c):
+        client, cn, (strays, match), tick = c
+        if tick < 0:
+            return run_flood(client, std[cn], -tick)
+        return run_case(client, std[cn], strays, match, tick)
+
     def worker(items):
         for c in items:
-            client, cn, (strays, match), tick = c
-            r = run_case(client, std[cn], strays, match, tick)
+            r = one(c)
             with lock:
                 results[c] = r
     nthreads = 16
@@ -243,7 +319,7 @@ def run(tier):
     rec = trace.Recorder("c18")
     for c in cases:
         client, cn, (strays, match), tick = c
-        rec.emit(event(client, cn, strays, match, *results[c], tick=tick))
+        rec.emit(event(client, cn, strays, match, *results[c], tick=abs(tick)))
         chk.case((client, cn, strays, match, tick), nontrivial=len(strays) > 0)
     pair_index = {}
     for p in pairs:
@@ -284,9 +360,9 @@ def run(tier):
         evs = [rec.events[f - 1]]
         confirmed = True
         for _ in range(2):
-            r = run_case(client, std[cn], strays, match, tick)
+            r = one(c)
             rec2 = trace.Recorder("c18-confirm")
-            e2 = event(client, cn, strays, match, *r, tick=tick)
+            e2 = event(client, cn, strays, match, *r, tick=abs(tick))
             rec2.emit(e2)
             v2 = trace.validate("TraceTimeout.tla", "TraceTimeout.cfg", rec2.close())
             evs.append(e2)
@@ -295,8 +371,8 @@ def run(tier):
                 break
         if confirmed:
             late = "late-match" if match >= T else ("match" if match else "none")
-            sig = dict(client=client, nstrays=len(strays) if len(strays) < 2 else "2+", reply=late, result=evs[0]["result"], timeout_over_1s=T * tick > 1.0)
-            chk.violation(sig, "%s %s get(), timeout %.3f s, strays at %s ticks, reply at %s: %s after %d ms (three runs: %s)" % (client, cn, T * tick, list(strays), match or "never",
+            sig = dict(client=client, nstrays=len(strays) if len(strays) < 2 else "2+", reply=late, result=evs[0]["result"], timeout_over_1s=T * abs(tick) > 1.0, flood=tick < 0)
+            chk.violation(sig, "%s %s get(), timeout %.3f s, %s, reply at %s: %s after %d ms (three runs: %s)" % (client, cn, T * abs(tick), ("strays at %s ticks" % list(strays)) if tick > 0 else "a stray every 0.3 ms from 0.6 T to 1.5 T", match or "never",
                           evs[0]["result"], evs[0]["elapsed_ms"], [x["elapsed_ms"] for x in evs]), dict(client=client, cfg=cn, strays=list(strays), match=match, tick=tick, runs=evs))
     chk.sample(dict(kind="timed-run", event=rec.events[5]))
     chk.assumptions += ["wall-clock measurement with %d ms slack; a regression smaller than the slack is not detected" % SLACK_MS,
@@ -323,9 +399,12 @@ def replay(path):
             return 1
         return 0
     for _ in range(3):
-        res = run_case(r["client"], std[r["cfg"]], tuple(r["strays"]), r["match"], r.get("tick", TICK))
+        if r.get("tick", TICK) < 0:
+            res = run_flood(r["client"], std[r["cfg"]], -r["tick"])
+        else:
+            res = run_case(r["client"], std[r["cfg"]], tuple(r["strays"]), r["match"], r.get("tick", TICK))
         rec = trace.Recorder("c18-replay")
-        rec.emit(event(r["client"], r["cfg"], r["strays"], r["match"], *res, tick=r.get("tick", TICK)))
+        rec.emit(event(r["client"], r["cfg"], r["strays"], r["match"], *res, tick=abs(r.get("tick", TICK))))
         v = trace.validate("TraceTimeout.tla", "TraceTimeout.cfg", rec.close())
         print(res, "rejected" if v["fails"] else "accepted")
         bad += 1 if v["fails"] else 0
